@@ -16,7 +16,7 @@
    realise put_slice_spec on the real AST, layout independence and entry-point agreement of the implementation. *)
 From Coq Require Import ZArith List Bool Lia.
 From PF Require Import kernel.PyBase kernel.Container gen.Fixups models.View
-  proofs.FixupsProofs proofs.ContainerProofs proofs.ViewProofs.
+  proofs.FixupsProofs proofs.ContainerProofs proofs.ViewProofs models.Arglikes proofs.ArglikesProofs.
 Import ListNotations.
 
 Theorem C03_index_is_python_index : forall len i, (0 <= len)%Z ->
@@ -151,6 +151,22 @@ Theorem C03_view_heals : forall (A : Type) (s : vst A) f,
   let s' := external s f in hstart s' <= hstop s' <= length f /\ hstart s' <= vstart s.
 Proof. exact @external_heals. Qed.
 Print Assumptions C03_view_heals.
+
+(* ---- two AST lists, one source order: keywords edited through the merged argument list (models/Arglikes.v, correspondence with real calls) ---- *)
+Theorem C03_keyword_index_mapping_right_iff_no_argument_behind : forall l i p,
+  kw_pos l i = Some p -> (mapped l i = p <-> arg_after l p = false).
+Proof. exact mapping_right_iff_no_argument_behind. Qed.
+Print Assumptions C03_keyword_index_mapping_right_iff_no_argument_behind.
+
+Theorem C03_keywords_guard_passes_iff_mapping_right : forall l i, (i <= count_k l)%nat ->
+  (guard_refuses l i = false <-> kw_pos l i = Some (mapped l i)).
+Proof. exact guard_passes_iff_mapping_right. Qed.
+Print Assumptions C03_keywords_guard_passes_iff_mapping_right.
+
+Theorem C03_keywords_slice_contiguous_once_admitted : forall l i j, (i <= j <= count_k l)%nat -> guard_refuses l i = false ->
+  kw_pos l j = Some (mapped l j).
+Proof. exact later_keywords_contiguous. Qed.
+Print Assumptions C03_keywords_slice_contiguous_once_admitted.
 
 (* non-vacuity: a concrete view with a fixed stop, healed after an external shrink, then edited *)
 Example C03_nonvacuous :
